@@ -1435,36 +1435,101 @@ Proof. eexists. split; [vm_compute; reflexivity|]. split; reflexivity. Qed.
 (* ================================================================== *)
 (* 12. The import of the package itself                                *)
 
-Lemma names_the_package_iff : forall pkgname ename,
-  names_the_package pkgname ename = true <->
-  ename = Some pkgname \/ ename = Some (top_component pkgname).
+Lemma length_append : forall a b, String.length (a ++ b)%string = String.length a + String.length b.
+Proof. induction a as [|c a IH]; intros b; simpl; [reflexivity|]. now rewrite IH. Qed.
+
+Lemma append_inj_l : forall a b c : string, (a ++ b = a ++ c)%string -> b = c.
+Proof. induction a as [|x a IH]; intros b c H; simpl in H; [assumption|]. inversion H. now apply IH. Qed.
+
+Lemma append_assoc_s : forall a b c : string, ((a ++ b) ++ c = a ++ (b ++ c))%string.
+Proof. induction a as [|x a IH]; intros b c; simpl; [reflexivity|]. now rewrite IH. Qed.
+
+Lemma append_nil_r_s : forall a : string, (a ++ "")%string = a.
+Proof. induction a as [|x a IH]; simpl; [reflexivity|]. now rewrite IH. Qed.
+
+Lemma prefix_app : forall a b, prefix a (a ++ b)%string = true.
 Proof.
-  intros pkgname [n|]; simpl.
-  - rewrite orb_true_iff, !String.eqb_eq. split; intros [H|H]; (left + right); congruence.
-  - split; [discriminate|]. intros [H|H]; discriminate.
+  induction a as [|x a IH]; intros b; simpl; [now destruct b|].
+  destruct (ascii_dec x x) as [_|N]; [apply IH|now contradiction N].
 Qed.
 
-Lemma names_the_package_false : forall pkgname ename,
-  ename <> Some pkgname -> ename <> Some (top_component pkgname) ->
-  names_the_package pkgname ename = false.
+Lemma prefix_app_inv : forall a b, prefix a b = true -> exists c, b = (a ++ c)%string.
 Proof.
-  intros pkgname ename H1 H2. destruct (names_the_package pkgname ename) eqn:E; [|reflexivity].
-  apply names_the_package_iff in E. tauto.
+  induction a as [|x a IH]; intros b H.
+  - exists b. reflexivity.
+  - destruct b as [|y b]; simpl in H; [discriminate|].
+    destruct (ascii_dec x y) as [E|N]; [|discriminate]. subst y.
+    destruct (IH b H) as [c Hc]. exists c. simpl. now rewrite Hc.
+Qed.
+
+Lemma snoc_inj : forall (a b : string) x y,
+  (a ++ String x "" = b ++ String y "")%string -> a = b /\ x = y.
+Proof.
+  induction a as [|c a IH]; intros b x y H; destruct b as [|d b]; simpl in H.
+  - inversion H. auto.
+  - inversion H as [[H1 H2]]. apply (f_equal String.length) in H2. rewrite length_append in H2. simpl in H2. lia.
+  - inversion H as [[H1 H2]]. apply (f_equal String.length) in H2. rewrite length_append in H2. simpl in H2. lia.
+  - inversion H as [[H1 H2]]. destruct (IH b x y H2) as [E1 E2]. subst. auto.
+Qed.
+
+Lemma snoc_decomp : forall c : string, c <> ""%string -> exists c' x, c = (c' ++ String x "")%string.
+Proof.
+  induction c as [|y c IH]; intros H; [congruence|].
+  destruct c as [|z c].
+  - exists ""%string, y. reflexivity.
+  - destruct IH as [c' [x Hc]]; [discriminate|]. exists (String y c'), x. simpl. now rewrite Hc.
+Qed.
+
+(* (pkgname + ".").startswith(n + ".")  <->  n is the package or a package it is nested in *)
+Lemma dotted_prefix_iff : forall n pkgname,
+  prefix (n ++ ".")%string (pkgname ++ ".")%string = true <-> dotted_prefix n pkgname.
+Proof.
+  intros n pkgname. unfold dotted_prefix. split.
+  - intros H. apply prefix_app_inv in H. destruct H as [c Hc].
+    destruct c as [|y c].
+    + left. rewrite append_nil_r_s in Hc. apply snoc_inj in Hc. symmetry. tauto.
+    + right. destruct (snoc_decomp (String y c)) as [c' [x Hx]]; [discriminate|].
+      rewrite Hx in Hc. rewrite <- append_assoc_s in Hc. apply snoc_inj in Hc. destruct Hc as [Hc _].
+      exists c'. rewrite Hc. rewrite append_assoc_s. reflexivity.
+  - intros [H|[rest H]]; subst pkgname.
+    + rewrite <- (append_nil_r_s (n ++ ".")) at 2. apply prefix_app.
+    + replace ((n ++ "." ++ rest) ++ ".")%string with ((n ++ ".") ++ (rest ++ "."))%string.
+      * apply prefix_app.
+      * rewrite !append_assoc_s. reflexivity.
+Qed.
+
+Lemma names_the_package_iff : forall pkgname mnf ename,
+  names_the_package pkgname mnf ename = true <->
+  no_such_package pkgname (ImportRaisesImportError mnf ename).
+Proof.
+  intros pkgname mnf ename. unfold names_the_package, no_such_package. split.
+  - intros H. apply andb_true_iff in H. destruct H as [Hm H]. subst mnf.
+    destruct ename as [n|]; [|discriminate]. exists n. split; [reflexivity|]. now apply dotted_prefix_iff.
+  - intros [n [H Hd]]. inversion H; subst. simpl. now apply dotted_prefix_iff.
+Qed.
+
+Lemma names_the_package_false : forall pkgname mnf ename,
+  ~ no_such_package pkgname (ImportRaisesImportError mnf ename) ->
+  names_the_package pkgname mnf ename = false.
+Proof.
+  intros pkgname mnf ename H. destruct (names_the_package pkgname mnf ename) eqn:E; [|reflexivity].
+  apply names_the_package_iff in E. contradiction.
 Qed.
 
 Lemma missing_offers_nothing : forall fms, exists r, discover fms PkgMissing = Built r /\ offers_nothing r.
 Proof. intros fms. eexists. split; [vm_compute; reflexivity|]. vm_compute. auto. Qed.
 
-(* the ImportError branch, without FMS: raised unless e.name is the package
-   or its top-level package; then only a warning (FMS or not) *)
-Theorem import_error_policy : forall pkgname ename,
-  (ename <> Some pkgname -> ename <> Some (top_component pkgname) ->
-     init false pkgname (ImportRaisesImportError ename) = Raised ErrPackage []) /\
-  (ename = Some pkgname \/ ename = Some (top_component pkgname) ->
-     forall fms, exists r, init fms pkgname (ImportRaisesImportError ename) = Built r /\ offers_nothing r).
+(* the ImportError branch: "no such package" (a ModuleNotFoundError naming the
+   package or a package it is nested in) is a warning only, FMS or not; every
+   other ImportError is raised without FMS *)
+Theorem import_error_policy : forall pkgname mnf ename,
+  (~ no_such_package pkgname (ImportRaisesImportError mnf ename) ->
+     init false pkgname (ImportRaisesImportError mnf ename) = Raised ErrPackage []) /\
+  (no_such_package pkgname (ImportRaisesImportError mnf ename) ->
+     forall fms, exists r, init fms pkgname (ImportRaisesImportError mnf ename) = Built r /\ offers_nothing r).
 Proof.
-  intros pkgname ename. unfold init, import_outcome. split.
-  - intros H1 H2. now rewrite names_the_package_false.
+  intros pkgname mnf ename. unfold init, import_outcome. split.
+  - intros H. now rewrite names_the_package_false.
   - intros H fms. apply names_the_package_iff in H. rewrite H. apply missing_offers_nothing.
 Qed.
 
@@ -1475,74 +1540,80 @@ Proof. reflexivity. Qed.
 Theorem init_fms_never_raises : forall pkgname i, exists r, init true pkgname i = Built r.
 Proof. intros. apply fms_never_raises. Qed.
 
-(* a module that lives under the package's own top-level name, but is
-   neither the package nor that top-level package, cannot be found: this is a
-   failing import of the package, not a missing package *)
+(* an ImportError that is not a ModuleNotFoundError comes from the package's own
+   code ("from . import helper", "from os import nothing", raise ImportError):
+   raised without FMS whatever name it carries -- the package's own name included *)
+Theorem plain_import_error_raises : forall pkgname ename,
+  init false pkgname (ImportRaisesImportError false ename) = Raised ErrPackage [].
+Proof.
+  intros pkgname ename. apply import_error_policy. intros [n [H _]]. discriminate.
+Qed.
+
+(* a ModuleNotFoundError without a name: raised *)
+Theorem nameless_module_not_found_raises : forall pkgname,
+  init false pkgname (ImportRaisesImportError true None) = Raised ErrPackage [].
+Proof.
+  intros pkgname. apply import_error_policy. intros [n [H _]]. discriminate.
+Qed.
+
+(* a package missing at ANY level of the dotted name -- the first component, one
+   in the middle, the package itself -- is a missing package: tolerated, FMS or
+   not, nothing but "None" offered *)
+Theorem missing_package_at_any_level_tolerated : forall fms pkgname n,
+  dotted_prefix n pkgname ->
+  exists r, init fms pkgname (ImportRaisesImportError true (Some n)) = Built r /\ offers_nothing r.
+Proof.
+  intros fms pkgname n H. apply import_error_policy. exists n. auto.
+Qed.
+
+(* a missing module that is not the package or a package it is nested in: a
+   failing import, raised without FMS *)
+Theorem missing_other_module_raises : forall pkgname n,
+  ~ dotted_prefix n pkgname ->
+  init false pkgname (ImportRaisesImportError true (Some n)) = Raised ErrPackage [].
+Proof.
+  intros pkgname n H. apply import_error_policy. intros [n' [E Hd]]. inversion E; subst. contradiction.
+Qed.
+
+(* ... in particular one that merely lives under the same top-level name *)
 Theorem missing_module_in_namespace_raises : forall pkgname n,
-  top_component n = top_component pkgname -> n <> pkgname -> n <> top_component pkgname ->
-  init false pkgname (ImportRaisesImportError (Some n)) = Raised ErrPackage [].
-Proof.
-  intros pkgname n _ H1 H2. apply import_error_policy; congruence.
-Qed.
-
-Lemma length_append : forall a b, String.length (a ++ b)%string = String.length a + String.length b.
-Proof. induction a as [|c a IH]; intros b; simpl; [reflexivity|]. now rewrite IH. Qed.
-
-Lemma top_component_length : forall s, String.length (top_component s) <= String.length s.
-Proof.
-  induction s as [|c s IH]; simpl; [lia|]. destruct (Ascii.eqb c "."); simpl; lia.
-Qed.
-
-Lemma top_component_dotted : forall top rest,
-  top_component top = top -> top_component (top ++ "." ++ rest)%string = top.
-Proof.
-  induction top as [|c top IH]; intros rest H; simpl in *; [reflexivity|].
-  destruct (Ascii.eqb c "."); [discriminate|]. inversion H as [H1]. rewrite H1. now rewrite IH.
-Qed.
-
-Lemma append_inj_l : forall a b c : string, (a ++ b = a ++ c)%string -> b = c.
-Proof. induction a as [|x a IH]; intros b c H; simpl in H; [assumption|]. inversion H. now apply IH. Qed.
+  top_component n = top_component pkgname -> ~ dotted_prefix n pkgname ->
+  init false pkgname (ImportRaisesImportError true (Some n)) = Raised ErrPackage [].
+Proof. intros pkgname n _ H. now apply missing_other_module_raises. Qed.
 
 (* the package's __init__ needs one of its own sub-modules that does not exist
    ("from .helper import X", "import pkg.helper") *)
 Theorem missing_submodule_raises : forall pkgname sub,
-  init false pkgname (ImportRaisesImportError (Some (pkgname ++ "." ++ sub)%string)) = Raised ErrPackage [].
+  init false pkgname (ImportRaisesImportError true (Some (pkgname ++ "." ++ sub)%string)) = Raised ErrPackage [].
 Proof.
-  intros pkgname sub. apply import_error_policy; intros H; inversion H as [H1];
-    apply (f_equal String.length) in H1; rewrite length_append in H1; simpl in H1.
-  - lia.
-  - pose proof (top_component_length pkgname). lia.
+  intros pkgname sub. apply missing_other_module_raises. intros [H|[rest H]];
+    apply (f_equal String.length) in H; rewrite !length_append in H; simpl in H;
+    rewrite ?length_append in H; simpl in H; lia.
 Qed.
 
-(* ... or a module of its parent package that does not exist
-   ("import robot.helpers" in robot/autonomous/__init__.py) *)
+(* ... or a module of its parent package that does not exist ("import robot.helpers"
+   in robot/autonomous/__init__.py): raised unless it is a package the autonomous
+   package is nested in *)
 Theorem missing_sibling_raises : forall top rest sub,
-  top_component top = top -> sub <> rest ->
-  init false (top ++ "." ++ rest)%string (ImportRaisesImportError (Some (top ++ "." ++ sub)%string)) = Raised ErrPackage [].
+  ~ dotted_prefix sub rest ->
+  init false (top ++ "." ++ rest)%string (ImportRaisesImportError true (Some (top ++ "." ++ sub)%string))
+  = Raised ErrPackage [].
 Proof.
-  intros top rest sub Ht Hs. apply import_error_policy.
-  - intros H. injection H as H1. apply append_inj_l in H1. inversion H1. congruence.
-  - rewrite top_component_dotted by assumption. intros H. injection H as H1.
-    apply (f_equal String.length) in H1. rewrite length_append in H1. simpl in H1. lia.
+  intros top rest sub Hs. apply missing_other_module_raises. intros [H|[r H]]; apply Hs.
+  - apply append_inj_l in H. inversion H. now left.
+  - right. exists r. rewrite append_assoc_s in H. apply append_inj_l in H. simpl in H. inversion H. reflexivity.
 Qed.
-
-(* both have the first dotted component of the package name *)
-Lemma top_component_idem_dotted : forall top x,
-  top_component top = top -> top_component (top ++ "." ++ x)%string = top.
-Proof. intros. now apply top_component_dotted. Qed.
 
 Lemma package_fault_import_outcome : forall pkgname i,
   package_fault (import_outcome pkgname i) <-> package_import_fault pkgname i.
 Proof.
-  intros pkgname i. unfold package_fault, package_import_fault, import_outcome. destruct i as [ename| |ms].
-  - destruct (names_the_package pkgname ename) eqn:E.
-    + split; [discriminate|]. intros [H|[e [H [H1 H2]]]]; [discriminate|]. inversion H; subst e.
-      apply names_the_package_iff in E. tauto.
-    + split; [|reflexivity]. intros _. right. exists ename. split; [reflexivity|].
-      split; intros H; rewrite H in E; simpl in E; rewrite String.eqb_refl in E;
-        [discriminate|now rewrite orb_true_r in E].
-  - split; [now left|reflexivity].
-  - split; [discriminate|]. intros [H|[e [H _]]]; discriminate.
+  intros pkgname i. unfold package_fault, package_import_fault, import_outcome. destruct i as [mnf ename| |ms].
+  - destruct (names_the_package pkgname mnf ename) eqn:E.
+    + apply names_the_package_iff in E. split; [discriminate|]. intros [_ H]. contradiction.
+    + split; [|reflexivity]. intros _. split; [right; eauto|].
+      intros H. apply names_the_package_iff in H. congruence.
+  - split; [|reflexivity]. intros _. split; [now left|]. intros [n [H _]]. discriminate.
+  - split; [discriminate|]. intros [[H|[m [e H]]] _]; discriminate.
 Qed.
 
 Theorem init_no_fms_raises_iff : forall pkgname i,
@@ -1553,20 +1624,6 @@ Proof.
   intros pkgname i p. unfold init. fold p. rewrite no_fms_raises_iff.
   unfold p. rewrite package_fault_import_outcome. reflexivity.
 Qed.
-
-(* Where the test on e.name is narrower than "the package does not exist":
-   (e) an ImportError that names the package itself is taken for a missing
-       package although the package may exist ("from . import helper" in its
-       __init__.py raises ImportError(name=<the package>)): tolerated, no FMS *)
-Theorem import_error_naming_the_package_is_tolerated : forall fms pkgname,
-  exists r, init fms pkgname (ImportRaisesImportError (Some pkgname)) = Built r /\ offers_nothing r.
-Proof. intros fms pkgname. apply import_error_policy. now left. Qed.
-
-(* (f) a missing package in the middle of a dotted name is neither the name nor
-       its first component: raised *)
-Theorem missing_intermediate_package_raises :
-  init false "a.b.c" (ImportRaisesImportError (Some "a.b")) = Raised ErrPackage [].
-Proof. reflexivity. Qed.
 
 (* ================================================================== *)
 (* 13. Periods that are not followed by disable()                      *)
